@@ -376,12 +376,13 @@ int set_aln_type(char* in, int* type )
 {
         int t = 0;
         if(in){
-                if(strstr(in,"rna")){
+                /* "internal" contains "rna": it has to be tested first */
+                if(strstr(in,"internal")){
+                        t = KALIGN_TYPE_DNA_INTERNAL;
+                }else if(strstr(in,"rna")){
                         t = KALIGN_TYPE_RNA;
                 }else if(strstr(in,"dna")){
                         t = KALIGN_TYPE_DNA;
-                }else if(strstr(in,"internal")){
-                        t = KALIGN_TYPE_DNA_INTERNAL;
                 }else if(strstr(in,"protein")){
                         t = KALIGN_TYPE_PROTEIN;
                 }else if(strstr(in,"divergent")){
